@@ -304,7 +304,8 @@ fn std_hash<T: std::hash::Hash>(t: &T) -> u64 {
 
 /// C14 laws over all pairs and triples of a closed universe of small values.
 fn c14_laws(rep: &mut Report, tier: Tier) {
-    let leaves = [RV::Null, RV::Bool(true), RV::num("0"), RV::num("1"), RV::num("1.0"), RV::str(""), RV::str("a")];
+    // (two members of every kind that carries data: a same-kind overwrite must be visible)
+    let leaves = [RV::Null, RV::Bool(true), RV::Bool(false), RV::num("0"), RV::num("1"), RV::num("1.0"), RV::str(""), RV::str("a")];
     c14_law_universe(rep, tier, &leaves, &["a", "b"], "law_universe");
     // keys, strings and numbers on both sides of the inline/heap threshold (16 bytes), whose
     // length order and byte order disagree
@@ -353,6 +354,18 @@ fn c14_law_universe(rep: &mut Report, tier: Tier, leaves: &[RV], keys: &[&str], 
             }
             if (a <= b) != (c != Greater) || (a < b) != (c == Less) {
                 t.violation("", "comparison operators disagree with cmp".to_string(), case());
+            }
+            // clones equal their originals - also when the clone is written over an existing
+            // value with clone_from (whatever that value held before), alone and as array items
+            {
+                let mut d = a.clone();
+                d.clone_from(b);
+                let mut dv = Value::Array(vec![a.clone(), Value::Null, a.clone()]);
+                let bv = Value::Array(vec![b.clone(), Value::Null, b.clone()]);
+                dv.clone_from(&bv);
+                if d != *b || std_hash(&d) != hashes[j] || d.cmp(b) != Equal || dv != bv {
+                    t.violation("", format!("after a.clone_from(&b), a is {d} and b is {b}"), case());
+                }
             }
             t.outcome(match c {
                 Less => "pair:less",
@@ -627,6 +640,7 @@ fn c15(rep: &mut Report, tier: Tier) {
     c15_universe(rep, tier, &[RV::num("0"), RV::num("1")], &["a", "b"], 5, "binary");
     c15_pumped(rep, tier);
     c15_routes(rep, tier);
+    c15_interrupted(rep);
     if tier == Tier::Thorough {
         c15_universe(rep, tier, &[RV::num("0"), RV::num("1.0"), RV::Null, RV::str("a")], &["a", "b", "c"], 4, "rich");
     }
@@ -725,6 +739,60 @@ fn c15_routes(rep: &mut Report, tier: Tier) {
     let count = items.len();
     let t = explore::par_tally(items, |(n, keep, how), t| route_one(n, keep, how, t));
     rep.bounds["routes"] = json!({"objects": count, "peaks": sizes, "kept": [1, 3, 8, "peak/8+1"], "removal_patterns": 4});
+    rep.absorb(t);
+}
+
+/// Objects whose construction was interrupted: `extend` from a source that panics after k items
+/// (the panic is caught, the object kept) against a freshly built permutation of its entries.
+fn c15_interrupted(rep: &mut Report) {
+    use json_syntax::object::{Entry, Key};
+    use json_syntax::Object;
+    let mut t = Tally::new();
+    for base in 0..=3usize {
+        for k in 1..=3usize {
+            for entries_flavour in [true, false] {
+                t.evals += 1;
+                let case = json!({"kind": "unordered-interrupted", "base": base, "yielded_before_panic": k, "entries": entries_flavour});
+                let r = explore::guard(|| {
+                    let mut o = Object::new();
+                    for i in 0..base {
+                        o.push(Key::from(format!("b{i}")), Value::from(i as u32));
+                    }
+                    let mut i = 0;
+                    let src = std::iter::from_fn(|| {
+                        if i < k {
+                            i += 1;
+                            Some((Key::from(format!("x{}", i % 2)), Value::from(i as u32)))
+                        } else {
+                            panic!("the source of extend failed")
+                        }
+                    });
+                    let caught = if entries_flavour {
+                        std::panic::catch_unwind(std::panic::AssertUnwindSafe(|| o.extend(src.map(|(k, v)| Entry::new(k, v)))))
+                    } else {
+                        std::panic::catch_unwind(std::panic::AssertUnwindSafe(|| o.extend(src)))
+                    };
+                    let mut rev: Vec<Entry> = o.entries().to_vec();
+                    rev.reverse();
+                    let fresh = Object::from_vec(rev);
+                    (caught.is_err(), o.len(), fresh.unordered_eq(&o), o.unordered_eq(&fresh), o.unordered_eq(&o.clone()), Value::Object(fresh).unordered_eq(&Value::Object(o)))
+                });
+                match r {
+                    Ok((panicked, len, a, b, c, d)) => {
+                        if !panicked || len != base + k {
+                            t.violation("", format!("extend from a source that panics after {k} items: panicked={panicked}, the object has {len} entries, expected {}", base + k), case.clone());
+                        }
+                        if !(a && b && c && d) {
+                            t.violation("", format!("an object whose extend was interrupted after {k} items is not unordered-equal to a permutation of its own entries (fresh~o {a}, o~fresh {b}, o~clone {c}, as values {d})"), case.clone());
+                        }
+                    }
+                    Err(p) => t.violation("", format!("panicked outside the caught region: {p}"), case.clone()),
+                }
+            }
+        }
+    }
+    t.outcome("interrupted construction");
+    rep.bounds["interrupted"] = json!({"base_sizes": 4, "items_before_the_panic": 3, "flavours": 2});
     rep.absorb(t);
 }
 
@@ -955,6 +1023,14 @@ fn main() {
         let r = match kind {
             "object-history" => replay_history(case),
             "unordered-pair" | "value-pair" => replay_pair(case, kind),
+            "unordered-interrupted" => {
+                let mut rep2 = Report::new(&Args::parse(), "exploration", "replay");
+                c15_interrupted(&mut rep2);
+                match rep2.tally.violations.first() {
+                    None => Ok(()),
+                    Some(v) => Err(v.what.clone()),
+                }
+            }
             "unordered-route" => {
                 let mut t = Tally::new();
                 route_one(case["n"].as_u64().unwrap_or(5) as usize, case["keep"].as_u64().unwrap_or(1) as usize, case["how"].as_u64().unwrap_or(0) as u8, &mut t);
